@@ -61,6 +61,13 @@ class EnvState:
             if i % 2 == 0:
                 p2.add_object(o)
         self.problem2 = p2
+        # ... and a third one with the OTHER objects: the same number of objects as the second whenever the world has an
+        # even number of them (a remover that tells objects sets apart by their size cannot tell these two apart)
+        p3 = Problem("p3", W.env)
+        for i, o in enumerate(W.objects.values()):
+            if i % 2 == 1:
+                p3.add_object(o)
+        self.problem3 = p3
         self.psimp = Simplifier(W.env, p)
         self.rmq = ExpressionQuantifiersRemover(W.env)
 
@@ -100,7 +107,8 @@ class EnvState:
             elif k == "ifx":
                 r = sorted(render(x) for x in env.interpreted_functions_extractor.get(e))
             elif k == "rmq":
-                r = render(self.rmq.remove_quantifiers(e, self.problem2 if op.get("objs") == "half" else self.problem))
+                r = render(self.rmq.remove_quantifiers(e, {"half": self.problem2, "other": self.problem3}.get(op.get("objs"),
+                                                                                                                  self.problem)))
             elif k == "pkind":
                 # the kind computation of a problem whose goal is e: runs the environment's
                 # simplifier and the linearity checker over the expression
@@ -354,8 +362,8 @@ class EnvHist(Engine):
             op = {"op": opk, "e": e}
             if opk == "subst":
                 op["map"] = sub_map(e)
-            if opk == "rmq" and ro.random() < 0.4:
-                op["objs"] = "half"
+            if opk == "rmq" and ro.random() < 0.5:
+                op["objs"] = ro.choice(["half", "other"])
             return op
 
         def embed(e, kind):
